@@ -164,6 +164,11 @@ class LockInfo:
                                 src = ('not', op_local(s['rv']['a']))
                             break
             val = None
+            if dl is not None and not t['discr']['p']['pr'] and src not in self.prune and not (isinstance(src, tuple) and src[1] in self.prune):
+                from reach import param_source
+                ps, inv = param_source(fn, dl)
+                if ps in self.prune:
+                    src = ('not', ps) if inv else ps
             if src in self.prune:
                 val = 1 if self.prune[src] else 0
             elif isinstance(src, tuple) and src[1] in self.prune:
@@ -250,7 +255,7 @@ class Locks:
         self._info = {}
 
     def info(self, fn, prune=None):
-        key = (fn.path, tuple(sorted((prune or {}).items())))
+        key = (fn.path, id(fn) if hasattr(fn, 'inlined') else 0, tuple(sorted((prune or {}).items())))
         if key not in self._info:
             self._info[key] = LockInfo(self.facts, fn, self.carriers, self.fields, prune)
         return self._info[key]
